@@ -120,6 +120,8 @@ def option_configs(name, ds, tier='quick'):
                 if init in ('random', 'pca'):
                     o['random_state'] = 1
                 out.append(('init=%s,n_components=%s' % (init, nc), o))
+        # the same option given as a NumPy integer scalar (what a parameter grid built with np.arange hands over)
+        out.append(('init=auto,n_components=np.int64(%d)' % min(2, d), {'init': 'auto', 'n_components': np.int64(min(2, d))}))
     elif name in ('ITML', 'ITML_Supervised', 'LSML', 'LSML_Supervised', 'SDML', 'SDML_Supervised', 'MMC',
                   'MMC_Supervised'):
         key = 'init' if name.startswith('MMC') else 'prior'
@@ -134,9 +136,11 @@ def option_configs(name, ds, tier='quick'):
                 for nc in ncs:
                     out.append(('embedding_type=%s,k=%s,n_components=%s' % (emb, k, nc),
                                 {'embedding_type': emb, 'k': k, 'n_components': nc}))
+        out.append(('embedding_type=weighted,k=None,n_components=np.int64(1)', {'n_components': np.int64(1)}))
     elif name in ('RCA', 'RCA_Supervised'):
         for nc in [None] + list(range(1, d + 1)):
             out.append(('n_components=%s' % nc, {'n_components': nc}))
+        out.append(('n_components=np.int64(%d)' % max(1, d - 1), {'n_components': np.int64(max(1, d - 1))}))
         if name == 'RCA_Supervised':
             # few but larger chunks: n_chunks < n_features <= n_chunks * (chunk_size - 1) (full rank only thanks to chunk_size)
             nch = -(-d // 2)
@@ -157,6 +161,13 @@ def option_configs(name, ds, tier='quick'):
                 o['n_basis'] = 4 * d
             out.append(('basis=%s' % b, o))
     return out
+
+
+def retype(label, o):
+    """Replay files store options as JSON: restore the NumPy integer scalar a label announces."""
+    if 'np.int64(' in label and o.get('n_components') is not None:
+        o = dict(o, n_components=np.int64(o['n_components']))
+    return o
 
 
 def family(tier, seed=0):
